@@ -2,6 +2,7 @@
 from __future__ import annotations
 
 import datetime as _dt
+import sys
 import time as _time
 
 EPOCH = 1_750_000_000.0
@@ -34,6 +35,12 @@ class SimClock:
 
     # --- what the code under test sees
     def _sleep(self, s) -> None:
+        # the standard library polls real child processes with time.sleep (subprocess.Popen.wait with a timeout,
+        # e.g. setuptools_scm running git when spsdk/__version__.py is absent): that is a wait for a real process,
+        # so it takes real time and no simulated time - otherwise the number of polls would leak into the clock
+        if sys._getframe(1).f_globals.get("__name__") == "subprocess":
+            _real["sleep"](min(max(float(s), 0.0), 0.005))
+            return
         us = int(max(float(s), 0.0) * 1e6)
         self.sleeps += 1
         self.slept_us += us
